@@ -136,7 +136,7 @@ def run_mode(text, mode, smart, project, highlight=False):
         md = front.gfm_markdown_it(MdParserConfig(gfm_only=True), RendererHTML)
         docs["docutils"], _ = front.gfm_parse(text, extra_cfg={"highlight_code_blocks": False})
     else:
-        exts = EXT_STATIC + smart
+        exts = EXT_STATIC + [x for x in smart if not x.startswith("html_")] + [x for x in smart if x.startswith("html_")]
         cfg = {"enable_extensions": exts}
         md = create_md_parser(MdParserConfig(**cfg), RendererHTML)
         docs["docutils"], _ = front.docutils_parse(text, settings={"myst_enable_extensions": exts, "myst_highlight_code_blocks": highlight})
@@ -224,6 +224,7 @@ def case_st(draw):
     wild = draw(st.booleans())
     blocks = draw(mdgen.blocks_st(feats, wild=wild, depth=3, max_blocks=5))
     smart = draw(st.lists(st.sampled_from(["smartquotes", "replacements"]), unique=True, max_size=2)) if mode == "myst" else []
+
     return {"text": mdgen.render(blocks), "mode": mode, "smart": smart}
 
 
